@@ -32,7 +32,6 @@ var Quirks = []Quirk{
 	{ID: "C01-two-schemes-same-type", Detect: hasTwoSchemesSameType, SigAny: []string{"redeclared", "duplicate method"}},
 	{ID: "C01-body-fields-user-type", Detect: hasBodyFieldsUserType, SigAny: []string{"client/types: cannot use _ (variable of type *struct{…}"}},
 	{ID: "C01-body-fields-inline-required", Detect: hasBodyFieldsInlineRequired, SigAny: []string{"== nil (mismatched types", "cannot indirect"}},
-	{ID: "C01-grpc-metadata-alias-length-validation-gen-panic", Detect: hasGRPCMetadataAliasLength, SigAny: []string{"gen-panic"}},
 	{ID: "C01-grpc-metadata-alias-type", Detect: hasGRPCMetadataAlias, SigAny: []string{"undefined: _", "cannot convert _"}},
 	{ID: "C01-grpc-response-metadata", Detect: hasGRPCResponseMetadata, SigAny: []string{"encode_decode: undefined: _", "encode_decode: declared and not used", "as *string value in assignment"}},
 	{ID: "C01-grpc-only-design-example-main", Detect: isGRPCOnly, SigAny: []string{"cmd: undefined: _"}},
